@@ -525,6 +525,7 @@ func fixedTargets() []string {
 		// kinds that cannot be serialized, below the top level: an error on the first token that reaches them
 		"(env) (atlas 0) (sl bad)",
 		"(env) (atlas 0) (mp s bad)",
+		"(env) (atlas 0) (mp i s)",
 	}
 }
 
